@@ -209,11 +209,16 @@ namespace occa {
 
   hash_t kernelHeaderHash(const occa::json &props) {
     return (
-      occa::hash(props["defines"])
-      ^ props["functions"]
-      ^ props["includes"]
-      ^ props["headers"]
+      kernelPropertyHash(props, "defines")
+      ^ kernelPropertyHash(props, "functions")
+      ^ kernelPropertyHash(props, "includes")
+      ^ kernelPropertyHash(props, "headers")
     );
+  }
+
+  hash_t kernelPropertyHash(const occa::json &props,
+                            const std::string &name) {
+    return occa::hash(name + ':' + props[name].dump(0));
   }
 
   std::string assembleKernelHeader(const occa::json &props) {
